@@ -104,3 +104,14 @@ check("C17", "model_checking",
       "answers is outside this check",
       "TLA+ transcription of the decision table (complete input space) + real function at class boundaries + TLC trace validation",
       "DESIGN.md#c17")
+
+check("C19", "model_checking",
+      "Rpc.tla is the reference gate (Read / Gate / Dispatch / Reply): a message is a single request or a batch of 1-3 request shapes "
+      "<<key class (15), kind (12)>>, server with / without a key, transport with / without pub-sub; TLC enumerates the whole case table "
+      "(every permutation of key classes and kinds over batch positions) with the invariants NoKeyNoRun, WellFormedGetsInvalidKey, "
+      "RightKeyServed and exports it; every message is sent to REAL rpc.Server instances over HTTP, WebSocket and IPC with a probe "
+      "service (tagged invocations, subscription creations / cancellations); TLC validates the recorded responses and counters "
+      "against the reference (Trace_Rpc), plus seeded random batches of up to 8 elements with varied concretisations.",
+      "bounds: batches <= 3 in the table (<= 8 random); HTTP layer limits, server shutdown, concurrent connections, timing of the "
+      "key comparison and case-insensitive envelope field names are outside; needs loopback TCP and a unix socket",
+      "TLA+ reference model of the gate (full case table) + real servers over three transports + TLC trace validation", "DESIGN.md#c19")
